@@ -13,7 +13,7 @@ use hifitime::{Epoch, TimeScale};
 
 pub fn meta() -> Meta {
     Meta {
-        rule: "events = for one epoch (reading c in scale s): Display, to_gregorian_str(s), to_gregorian_utc/_tai (own scale UTC/TAI), year(), month_name(), day_of_year(), year_days_of_year(), the other-scale renderings {:?} {:x} {:X} {:e} {:E} and to_gregorian_str(other), then maybe_from_gregorian on the printed fields. Expected: M-CAL civil-from-days fields of the model reading; Display == harness-built `YYYY-MM-DDTHH:MM:SS[.fffffffff] SCALE`; rebuilding from the fields gives identical parts; accessors agree with the fields (day of year within 8 ulp(366)); other-scale renderings parsed by the harness and compared with M-SCALE (exact for uniform scales and UTC, +-30 ns for ET/TDB; TAI instants without UTC pre-image don't-care). Generation: enumerated days (as C08) at first ns, last ns and a random instant, scales rotated / all nine in 1850-2150, random ns instants in all scales, UTC instants around each leap second, sampled years out to +-30000. Non-trivial = every epoch (distinct (reading, scale) hashes). Round 6: to_gregorian_str in all nine scales from any holder (60 ns when both scales are dynamical); the years at the ends of the quantifier (-30000, -10000, -1, 0, 10000, 30000).",
+        rule: "events = for one epoch (reading c in scale s): Display, to_gregorian_str(s), to_gregorian_utc/_tai (own scale UTC/TAI), year(), month_name(), day_of_year(), year_days_of_year(), the other-scale renderings {:?} {:x} {:X} {:e} {:E} and to_gregorian_str(other), then maybe_from_gregorian on the printed fields. Expected: M-CAL civil-from-days fields of the model reading; Display == harness-built `YYYY-MM-DDTHH:MM:SS[.fffffffff] SCALE`; rebuilding from the fields gives identical parts; accessors agree with the fields (day of year within 8 ulp(366)); other-scale renderings parsed by the harness and compared with M-SCALE (exact for uniform scales and UTC, +-30 ns for ET/TDB; TAI instants without UTC pre-image don't-care). Generation: enumerated days (as C08) at first ns, last ns and a random instant, scales rotated / all nine in 1850-2150, random ns instants in all scales, UTC instants around each leap second, sampled years out to +-30000. Non-trivial = every epoch (distinct (reading, scale) hashes). Round 6: to_gregorian_str in all nine scales from any holder (60 ns when both scales are dynamical); the years at the ends of the quantifier (-30000, -10000, -1, 0, 10000, 30000). Round 10: times of day exactly one unit (1 s .. 23 h) after the start or before the end of the day +-1 ns (shared generator).",
         assumptions: &["M-CAL; the text grammar of the default form as documented"],
         mandatory: &["epoch/first-ns-of-day", "epoch/last-ns-of-day", "epoch/before-1900", "epoch/after-3408", "epoch/feb-29", "epoch/dec-31", "epoch/year-beyond-9999", "epoch/near-leap-second", "render/other-scale", "rebuild/own-scale"],
         thorough_scale: 8,
